@@ -146,7 +146,9 @@ pub fn jobs(entries: &[Entry], thorough: bool) -> Vec<Job> {
         let nseeds = e.seeds.len().max(1) as f64;
         for (name, seed) in &e.seeds {
             out.push(Job { entry: ei, space: Space::Trunc { seed_name: name.clone(), seed: seed.clone() } });
-            if e.quick_no_sub && !thorough {
+            // quick tier: substitution spaces are skipped for heavy entries and for seeds longer
+            // than 1200 bytes (the big WebRTC SDPs); the thorough tier runs all of them
+            if !thorough && (e.quick_no_sub || seed.len() > 1200) {
                 continue;
             }
             out.push(Job { entry: ei, space: Space::Sub1 { seed_name: name.clone(), seed: seed.clone() } });
